@@ -10,7 +10,9 @@ RULE = ('1-10 statements (bindings with scopes and dotted selectors, macro defin
         'includes, references and macros as values) rendered in two independently drawn layouts: comment placement, blank '
         'lines, backslash continuations before and after "=", spacing, flat vs block form with random indentation width '
         '(spaces or a tab), comments and blank lines between block members, CRLF line ends, form feeds, trailing newline or '
-        'not; names that spell a keyword (include, import, from) used as macro, selector and scope; plus a '
+        'not; string values spelled per layout (triple-quoted over several physical lines some of which begin with "#", '
+        'escaped on one line, adjacent pieces, carried over line ends with backslashes), bare or inside a container; '
+        'names that spell a keyword (include, import, from) used as macro, selector and scope; plus a '
         'malformed-selector stream (inner whitespace, empty components, misplaced separators, continuation '
         'inside a name, one defect at any component of a 1-4 deep scope in bindings, macros, block headers, references). Oracle: both layouts yield the same bindings/imports/includes; malformed names are rejected. '
         'non-trivial = at least one block or continuation in one layout, or a malformed selector; distinct = distinct texts')
@@ -30,8 +32,57 @@ ARGS = ['x', 'lr', 'num_layers']
 MODULES = ['os', 'os.path', 'pkg.sub.mod', 'a']
 
 
+# physical lines inside a string literal are part of the value whatever they look like: a line that begins with '#'
+# (after blanks or not) is a comment only between tokens
+STRING_LINES = ['usage:', '# not a comment', '  # nor is this', '#', '\t# after a tab', 'done', '', 'x = 1  # no comment either',
+                '#!/bin/sh', '    #', '# a.b = 2', 'include # x']
+
+
+WRAPS = [('', '')] * 6 + [('[', ']'), ('[1, ', ', 2]'), ('(', ',)'), ('{1: ', '}')]
+
+
+def gen_string_spec(rng):
+  """A string value whose spelling is drawn per layout (see `spell_value`): ('ml', lines) is the lines joined by
+  newlines, ('cont', parts) the parts joined by nothing."""
+  if rng.random() < 0.6:
+    lines = [rng.choice(STRING_LINES) for _ in range(rng.randint(2, 4))]
+    if not any(ln.lstrip().startswith('#') for ln in lines[1:]):
+      lines[rng.randint(1, len(lines) - 1)] = rng.choice(['# not a comment', '  # nor is this', '#'])
+    return ('ml', lines, rng.choice(WRAPS))
+  parts = [rng.choice(['p ', 'usage: ', '', 'k=1 '])] + [rng.choice(['# q', '  # r ', '#', 'tail', '\t#t'])
+                                                        for _ in range(rng.randint(1, 3))]
+  return ('cont', parts, rng.choice(WRAPS))
+
+
+def spell_value(rng, v):
+  """The text of a value in one layout."""
+  if isinstance(v, str):
+    return v
+  kind, pieces, wrapped = v
+  if kind == 'ml':
+    r = rng.random()
+    if r < 0.55:      # a triple-quoted literal over several physical lines
+      q = rng.choice(["'''", '"""'])
+      s = q + '\n'.join(pieces) + q
+    elif r < 0.8:     # one physical line, the line ends written as escapes
+      q = rng.choice(["'", '"', "'''"])
+      s = q + '\\n'.join(pieces) + q
+    else:             # adjacent pieces, one per line of the value
+      s = ' '.join("'" + ln + ("\\n'" if i < len(pieces) - 1 else "'") for i, ln in enumerate(pieces))
+  else:
+    r = rng.random()
+    if r < 0.6:       # the literal carried over line ends with backslashes: the line end is not part of the value
+      q = rng.choice(["'", '"', "'''"])
+      s = q + '\\\n'.join(pieces) + q
+    else:
+      s = "'" + ''.join(pieces) + "'"
+  return wrapped[0] + s + wrapped[1]
+
+
 def gen_value_text(rng):
   r = rng.random()
+  if r < 0.12:
+    return gen_string_spec(rng)
   if r < 0.6:
     return gen_lit(rng, 2)
   if r < 0.8:
@@ -97,9 +148,9 @@ def render(rng, specs):
     between()
     if sp[0] == 'bind':
       key = (sp[1] + '/' if sp[1] else '') + sp[2] + '.' + sp[3]
-      out.append(key + eq() + sp[4] + tail())
+      out.append(key + eq() + spell_value(rng, sp[4]) + tail())
     elif sp[0] == 'macro':
-      out.append(sp[1] + eq() + sp[2] + tail())
+      out.append(sp[1] + eq() + spell_value(rng, sp[2]) + tail())
     elif sp[0] == 'import':
       form, mod, alias = sp[1], sp[2], sp[3]
       sp1 = rng.choice([' ', '  ', ' \\' + nl + ' '])
@@ -120,7 +171,7 @@ def render(rng, specs):
       key = (scope + '/' if scope else '') + sel
       if rng.random() < 0.5:   # flat form
         for a, v in members:
-          out.append(key + '.' + a + eq() + v + tail())
+          out.append(key + '.' + a + eq() + spell_value(rng, v) + tail())
           between()
       else:
         ind = rng.choice(['  ', '    ', ' ', '\t', '        '])
@@ -128,7 +179,7 @@ def render(rng, specs):
         if rng.random() < 0.3:
           out.append(rng.choice(['', '# between header and members', ind + '# indented comment']))
         for i, (a, v) in enumerate(members):
-          out.append(ind + a + rng.choice([' = ', '=', ' =  ']) + v + tail())
+          out.append(ind + a + rng.choice([' = ', '=', ' =  ']) + spell_value(rng, v) + tail())
           if i < len(members) - 1 and rng.random() < 0.3:
             out.append(rng.choice(['', ind + '# member comment', '# flush comment']))
   text = nl.join(out)
